@@ -227,9 +227,15 @@ def run(rep, tier, seed, pa):
     for bi in range(2 if tier == "quick" else 10):
         n = rng.choice([5, 5, 4])
         units = gen.gen_units(rng, n, [rng.randrange(10, 15) if n == 5 else rng.randrange(13, 17) for _ in range(n)], rng.choice(["perturbed", "perturbed", "random"]), gen.LABEL_SETS["abc"])
+        if bi % 2 == 1:
+            # unbalanced annotators: the samples of the statistical sampler then differ in size, so a window size measured per sample (instead of
+            # inherited from the input) would differ from the input's
+            units = gen.gen_units(rng, 5, [12, 12, 12, 12, 4], "perturbed", gen.LABEL_SETS["abc"])
         cfgs.append({"units": units, "dissim": list(rng.choice([("pos", 1.0), ("comb", 1.0, 1.0, 1.0, "abs", "abc", "asis")])), "mode": "fast",
                      "sampler": rng.choice(["stat", "int_pivot", "float_pivot"]), "n_samples": rng.choice([3, 4]), "precision": None,
                      "numpy_seed": rng.randrange(2 ** 31), "ground_truth": None, "windowed": True})
+        if bi % 2 == 1:
+            cfgs[-1]["sampler"] = "stat"
     # the configurations compared across processes come first: one with a ground-truth subset and the shuffle sampler, one plain
     with_gt = [c for c in cfgs if c["ground_truth"] and c["sampler"] != "stat"] or [c for c in cfgs if c["ground_truth"]]
     if with_gt:
